@@ -774,6 +774,8 @@ def check_C25(rep):
                                                   "trace validation)", "bytes": n["bytes"], "observed": obs})
             else:
                 rep.nontriv(("rx", tuple(n["bytes"] or ()), n["phase"], n["rate"], n["bad"]))
+    rep.notes.append("not part of C25, not checked: the doc-string promises that the lines are not driven while "
+                     "xcvr_select = 0b00, but GatewarePHY.elaborate never reads xcvr_select")
     rep.notes.append("observed latency tx_valid -> first driven bit time: %s usb cycles (free in the spec)"
                      % sorted(lat_tx))
 
